@@ -96,6 +96,12 @@ func isTableWriter(in ssa.Instruction) (bool, string) {
 			return false, ""
 		}
 		fn := fieldName(fa)
+		// the whole table replaced on an Aux that already exists (not the one being constructed here)
+		if isFieldOf(fa, genericPath, "Aux", "methods") {
+			if _, fresh := fa.X.(*ssa.Alloc); !fresh {
+				return true, "methods = ..."
+			}
+		}
 		if (isFieldOf(fa, core.SlipPath, "Combination", "Primary") || isFieldOf(fa, core.SlipPath, "Combination", "Before") ||
 			isFieldOf(fa, core.SlipPath, "Combination", "After") || isFieldOf(fa, core.SlipPath, "Combination", "Wrap") ||
 			isFieldOf(fa, core.SlipPath, "Method", "Combinations")) && fromMethodsLookup(fa.X, 0) {
